@@ -34,7 +34,8 @@ def lineSafeCheck (cfg : Config) (m : MatcherI) (buf : Bytes) (sl : List SLine) 
           decide (p ≤ j) && inLineB t sl j (offsetAt sl p + i) && pmLineB cfg m sl j && noneMatchB cfg m sl p j) ||
         (offsetAt sl p + i == buf.length && lastTermB t sl && noneMatchB cfg m sl p sl.length)
     | some (.candidate i) =>
-      (List.range sl.length).any fun j =>
-        decide (p ≤ j) && inLineB t sl j (offsetAt sl p + i) && noneMatchB cfg m sl p j
+      ((List.range sl.length).any fun j =>
+          decide (p ≤ j) && inLineB t sl j (offsetAt sl p + i) && noneMatchB cfg m sl p j) ||
+        (offsetAt sl p + i == buf.length && lastTermB t sl && noneMatchB cfg m sl p sl.length)
 
 end RgVerif.GrepSpec
